@@ -4,6 +4,7 @@ import (
 	"fmt"
 	"go/ast"
 	"go/constant"
+	"go/token"
 	"go/types"
 
 	"golang.org/x/tools/go/ssa"
@@ -13,6 +14,10 @@ import (
 
 // EvalVarInit evaluates `var name = f(const...)` by interpreting f's SSA.
 func EvalVarInit(p *core.Program, name string) (Val, *ssa.Function, error) {
+	return evalVarInitDepth(p, name, 0)
+}
+
+func evalVarInitDepth(p *core.Program, name string, depth int) (Val, *ssa.Function, error) {
 	e, _ := varInit(p, name)
 	if e == nil {
 		return nil, nil, fmt.Errorf("no initialiser for package variable %s", name)
@@ -52,6 +57,7 @@ func EvalVarInit(p *core.Program, name string) (Val, *ssa.Function, error) {
 		}
 	}
 	ev := NewEvaluator(p.Pkg.TypesSizes)
+	ev.LoadGlobal = globalLoader(p, depth)
 	res, err := ev.Call(fn, args...)
 	if err != nil {
 		return nil, fn, fmt.Errorf("evaluating %s(...): %w", id.Name, err)
@@ -152,4 +158,146 @@ func TabulateBytePred(p *core.Program, fn *ssa.Function) ([256]Val, error) {
 		out[i] = r[0]
 	}
 	return out, nil
+}
+
+// literalVal evaluates a package-level initialiser that is a literal made of
+// constants, function names and nested composite literals (slices, arrays,
+// structs) — what a table of ranges / names looks like.  Anything else fails.
+func literalVal(p *core.Program, e ast.Expr) (Val, error) {
+	if c, ok := constOf(p, e); ok {
+		switch c.Kind() {
+		case constant.String:
+			return constant.StringVal(c), nil
+		case constant.Int:
+			iv, _ := constant.Int64Val(constant.ToInt(c))
+			return iv, nil
+		case constant.Bool:
+			return constant.BoolVal(c), nil
+		}
+		return nil, fmt.Errorf("%s: unsupported constant", p.Pos(e.Pos()))
+	}
+	switch x := e.(type) {
+	case *ast.ParenExpr:
+		return literalVal(p, x.X)
+	case *ast.Ident:
+		if f, ok := p.Info.Uses[x].(*types.Func); ok {
+			if fn := p.SSA.FuncValue(f); fn != nil {
+				return fn, nil
+			}
+		}
+		if _, isNil := p.Info.Uses[x].(*types.Nil); isNil {
+			return nil, nil
+		}
+		return nil, fmt.Errorf("%s: identifier %s is not a constant or a function", p.Pos(e.Pos()), x.Name)
+	case *ast.UnaryExpr:
+		if x.Op == token.AND {
+			return literalVal(p, x.X)
+		}
+	case *ast.CompositeLit:
+		tv, ok := p.Info.Types[x]
+		if !ok {
+			return nil, fmt.Errorf("%s: untyped literal", p.Pos(e.Pos()))
+		}
+		switch ut := tv.Type.Underlying().(type) {
+		case *types.Slice, *types.Array:
+			sl := &Slice{}
+			idx := 0
+			put := func(i int, v Val) {
+				for len(sl.Elems) <= i {
+					sl.Elems = append(sl.Elems, nil)
+				}
+				sl.Elems[i] = v
+			}
+			for _, el := range x.Elts {
+				ve := el
+				if kv, isKV := el.(*ast.KeyValueExpr); isKV {
+					kc, ok := constOf(p, kv.Key)
+					if !ok {
+						return nil, fmt.Errorf("%s: non-constant index", p.Pos(kv.Pos()))
+					}
+					ki, _ := constant.Int64Val(constant.ToInt(kc))
+					idx = int(ki)
+					ve = kv.Value
+				}
+				v, err := literalVal(p, ve)
+				if err != nil {
+					return nil, err
+				}
+				put(idx, v)
+				idx++
+			}
+			if arr, isArr := ut.(*types.Array); isArr {
+				for int64(len(sl.Elems)) < arr.Len() {
+					sl.Elems = append(sl.Elems, nil)
+				}
+			}
+			return sl, nil
+		case *types.Struct:
+			st := &Struct{F: make([]Val, ut.NumFields())}
+			for i, el := range x.Elts {
+				fi, ve := i, el
+				if kv, isKV := el.(*ast.KeyValueExpr); isKV {
+					id, ok := kv.Key.(*ast.Ident)
+					if !ok {
+						return nil, fmt.Errorf("%s: struct key", p.Pos(kv.Pos()))
+					}
+					fi = -1
+					for j := 0; j < ut.NumFields(); j++ {
+						if ut.Field(j).Name() == id.Name {
+							fi = j
+						}
+					}
+					if fi < 0 {
+						return nil, fmt.Errorf("%s: unknown field %s", p.Pos(kv.Pos()), id.Name)
+					}
+					ve = kv.Value
+				}
+				v, err := literalVal(p, ve)
+				if err != nil {
+					return nil, err
+				}
+				st.F[fi] = v
+			}
+			// zero values for the fields not mentioned
+			for j := 0; j < ut.NumFields(); j++ {
+				if st.F[j] == nil {
+					if b, ok := ut.Field(j).Type().Underlying().(*types.Basic); ok {
+						switch {
+						case b.Info()&types.IsInteger != 0:
+							st.F[j] = int64(0)
+						case b.Info()&types.IsString != 0:
+							st.F[j] = ""
+						case b.Info()&types.IsBoolean != 0:
+							st.F[j] = false
+						}
+					}
+				}
+			}
+			return st, nil
+		}
+	}
+	return nil, fmt.Errorf("%s: initialiser is not a literal of constants and function names", p.Pos(e.Pos()))
+}
+
+// globalLoader lets the evaluator read other package-level variables whose
+// initialisers are closed: a literal (evaluated from the syntax) or a call of a
+// table builder with constant arguments (evaluated recursively).
+func globalLoader(p *core.Program, depth int) func(g *ssa.Global) (Val, error) {
+	return func(g *ssa.Global) (Val, error) {
+		if depth > 3 {
+			return nil, fmt.Errorf("initialiser chain too deep at %s", g.Name())
+		}
+		e, _ := varInit(p, g.Name())
+		if e == nil {
+			return nil, fmt.Errorf("package variable %s has no initialiser (it may be written at run time)", g.Name())
+		}
+		if v, err := literalVal(p, e); err == nil {
+			return &Cell{V: v}, nil
+		}
+		v, _, err := evalVarInitDepth(p, g.Name(), depth+1)
+		if err != nil {
+			return nil, err
+		}
+		return &Cell{V: v}, nil
+	}
 }
